@@ -30,8 +30,11 @@ CheckDecode(e) ==
        /\ (e.obs.out = "error" => e.obs.line >= 1)      \* the error names the offending line
        /\ e.nf = ""                                     \* normal form observed on the real code
 
-\* ---- build observations: [bom, built, bytes, decoded, kindsok, encsame]
+\* ---- build observations: [big, same, bom, built, bytes, decoded, kindsok, encsame]
+\* (big: documents too large to re-encode here - 300 kB values, 20,000 children, depth 1,200 -
+\*  for which the recorded comparison built = decoded and the outcome are judged)
 CheckBuild(e) ==
+  IF e.big THEN e.decoded.out = "doc" /\ e.same /\ e.kindsok /\ e.encsame ELSE
   /\ IsForest(e.built)
   /\ e.bytes = Encode(e.bom, e.built)                  \* the documented line format
   /\ e.encsame
